@@ -11,6 +11,7 @@ import (
 	"bytes"
 	"encoding/json"
 	"fmt"
+	"math/big"
 	"math/rand"
 
 	gmsl "github.com/matrix-org/gomatrixserverlib"
@@ -115,13 +116,42 @@ var recSpecialNumbers = []string{
 	"9007199254740993", "90071992547409910", "900719925474099", "0.5", "-0.5", "-0.0", "0.0", "1.0", "1e2", "1E2",
 	"1e-05", "-1e-05", "0e1", "-0e1", "0E0", "1.5e300", "1e400", "-0.05", "-0.0e-0", "10.0", "-10", "1e+2", "2E-03",
 	"123456789012345678901234567890", "100", "-100",
+	// where a 64-bit integer parse saturates or wraps: 2^63-1, 2^63, 2^64-1, 2^64, 2^64+1, 2^64+2^53-1, 2^64+2^53, 2^65
+	"9223372036854775807", "9223372036854775808", "-9223372036854775808", "-9223372036854775809",
+	"18446744073709551615", "18446744073709551616", "18446744073709551617", "-18446744073709551615",
+	"-18446744073709551616", "-18446744073709551617", "18455751272964292607", "18455751272964292608",
+	"-18455751272964292607", "36893488147419103232", "-36893488147419103232",
+}
+
+// wrapLiteral is an integer literal k*2^64 + d (k = 1..4, |d| small or near 2^53), optionally negated: far out
+// of range, but congruent modulo 2^64 to a value near or inside +/-(2^53-1).
+func wrapLiteral(r *rand.Rand) string {
+	n := new(big.Int).Lsh(big.NewInt(int64(1+r.Intn(4))), 64)
+	var d int64
+	switch r.Intn(4) {
+	case 0:
+		d = int64(r.Intn(2001) - 1000)
+	case 1:
+		d = (1<<53 - 1) + int64(r.Intn(5)-2)
+	case 2:
+		d = -(1<<53 - 1) + int64(r.Intn(5)-2)
+	default:
+		d = r.Int63n(1<<54) - 1<<53
+	}
+	n.Add(n, big.NewInt(d))
+	if r.Intn(2) == 0 {
+		n.Neg(n)
+	}
+	return n.String()
 }
 
 func (g *docGen) number() {
 	r := g.r
 	var lit []byte
-	if r.Intn(3) == 0 {
+	if p := r.Intn(12); p < 4 {
 		lit = []byte(recSpecialNumbers[r.Intn(len(recSpecialNumbers))])
+	} else if p == 4 {
+		lit = []byte(wrapLiteral(r))
 	} else {
 		if r.Intn(3) == 0 {
 			lit = append(lit, '-')
